@@ -21,6 +21,12 @@ PROFILES = {
         # Fraction-valued chips: the engine divides pots exactly (no odd chips); units of 1/15120 chip
         ('fraction-chips', 80, 1200, dict(chips='fraction', rake_p=0.0, stacks='short', variants=FLOP + STUD + ['N2L1D'], boards=(1, 2, 2)),
          dict(probe_level=0, illegal=0.0, fold=0.03, allin=0.2, runout=0.7)),
+        # float and Decimal chips (binary-exact values): the engine divides with `/`; every split over 2 boards x 2 hand types x
+        # 2 winners is exact and is compared with the exact-division model; a hand that divides by 3, 5, 7 is left out (counted)
+        ('float-chips', 40, 600, dict(chips='float', rake_p=0.0, stacks='short', variants=FLOP + STUD + ['N2L1D'], boards=(1, 2, 2)),
+         dict(probe_level=0, illegal=0.0, fold=0.03, allin=0.2, runout=0.7)),
+        ('decimal-chips', 40, 600, dict(chips='decimal', rake_p=0.0, stacks='short', variants=FLOP + STUD + ['N2L1D'], boards=(1, 2, 2)),
+         dict(probe_level=0, illegal=0.0, fold=0.03, allin=0.2, runout=0.7)),
         # the known 'orphan pot' family on purpose: voluntary mucks and cash-game folds that leave a pot without contender
         ('orphan-pots-known-finding', 80, 800, dict(stacks='mixed', variants=FLOP + DRAW, no_autos=('Hole cards showing or mucking',)),
          dict(probe_level=0, illegal=0.0, fold=0.05, allin=0.15, manual_show=1.0, muck=0.85, allow_orphan=True)),
@@ -33,6 +39,8 @@ PROFILES = {
          dict(probe_level=0, illegal=0.0, fold=0.04, allin=0.2, manual_show=0.2)),
         ('hi-lo', 120, 1200, dict(variants=HILO, stacks='mixed'), dict(probe_level=0, illegal=0.0, fold=0.03, manual_show=0.2)),
         ('fraction-chips', 80, 1000, dict(chips='fraction', rake_p=0.0, stacks='short', variants=FLOP + STUD, boards=(1, 2, 2)),
+         dict(probe_level=0, illegal=0.0, fold=0.03, allin=0.2, runout=0.7)),
+        ('decimal-chips', 30, 500, dict(chips='decimal', rake_p=0.0, stacks='short', variants=FLOP + STUD, boards=(1, 2, 2)),
          dict(probe_level=0, illegal=0.0, fold=0.03, allin=0.2, runout=0.7)),
         ('orphan-pots-known-finding', 40, 600, dict(stacks='mixed', variants=FLOP + DRAW, no_autos=('Hole cards showing or mucking',)),
          dict(probe_level=0, illegal=0.0, fold=0.05, allin=0.15, manual_show=1.0, muck=0.85, allow_orphan=True)),
@@ -115,7 +123,8 @@ PROFILES['C11'] = [
 ]
 
 NEEDS = {
-    'C01': ['uncalled_bet_returned', 'two_pots_snapshot', 'rake_taken', 'op:PUSH', 'op:PULL', 'hand_finished'],
+    'C01': ['uncalled_bet_returned', 'two_pots_snapshot', 'rake_taken', 'op:PUSH', 'op:PULL', 'hand_finished',
+            'hands_chip_type_fraction', 'hands_chip_type_float', 'hands_chip_type_decimal'],
     'C02': ['push_side_pot', 'tie_split', 'push_second_hand_type', 'push_second_board'],
     'C03': ['refused:complete_bet_or_raise_to', 'short_all_in_raise_pending', 'bring_in_pending', 'op:CBR', 'op:F'],
     'C06': ['deck_replenished', 'discard', 'muck', 'op:CB'],
